@@ -84,4 +84,263 @@ Section RL.
         * intros x H. exists m. split; [now left|]. rewrite in_app_iff in H. destruct H as [H|[H|[]]]; [|subst; constructor].
           destruct (P1 x H) as (c0 & X & Y). eapply path_first; eauto. exists rq; auto.
   Qed.
+
+  Lemma fold_walk1_spec f : forall l vis post,
+    NoDup vis -> incl vis N -> incl l N -> (length N < f + length vis)%nat ->
+    exists vis' new, fold_walk (walk1 required f) l (vis, post) = Ok (vis', post ++ new) /\ incl l vis' /\
+                     w1_post vis vis' new l.
+  Proof.
+    induction l as [|c l IHl]; intros vis post ND IN Hl Hf.
+    - exists vis, []. simpl. rewrite app_nil_r. repeat split; auto; try easy; try tauto.
+    - simpl.
+      destruct (walk1_spec f c vis post ND IN (Hl c (or_introl eq_refl)) Hf) as (v1 & n1 & E1 & C1 & ND1 & IN1 & S1 & NEW1 & CL1 & P1).
+      rewrite E1. simpl.
+      assert (Hf1 : (length N < f + length v1)%nat).
+      { pose proof (incl_length_nodup _ _ ND S1). lia. }
+      destruct (IHl v1 (post ++ n1) ND1 IN1 (fun x H => Hl x (or_intror H)) Hf1)
+        as (v2 & n2 & E2 & C2 & ND2 & IN2 & S2 & NEW2 & CL2 & P2).
+      exists v2, (n1 ++ n2). rewrite E2, app_assoc. split; [reflexivity|]. split.
+      { intros x [H|H]; [subst; auto | auto]. }
+      repeat split; auto.
+      + eapply incl_tran; eauto.
+      + rewrite in_app_iff in H. destruct H as [H|H]; [apply NEW1 in H; destruct H; auto | apply NEW2 in H; tauto].
+      + rewrite in_app_iff in H. destruct H as [H|H]; [apply NEW1 in H; tauto|].
+        apply NEW2 in H. intros X. apply H. auto.
+      + intros [H1 H2]. rewrite in_app_iff. destruct (in_dec node_dec x v1).
+        * left. apply NEW1. auto. * right. apply NEW2. auto.
+      + intros x l0 H Hr. rewrite in_app_iff in H. destruct H as [H|H].
+        * eapply incl_tran; [eapply CL1; eauto | auto]. * eapply CL2; eauto.
+      + intros x H. rewrite in_app_iff in H. destruct H as [H|H].
+        * destruct (P1 x H) as (c0 & [X|[]] & Y). subst c0. exists c. split; [now left|auto].
+        * destruct (P2 x H) as (c0 & X & Y). exists c0. split; [now right|auto].
+  Qed.
 End RL.
+
+(** the second walk is the first one over [cache] without the postorder *)
+Definition fst_outcome {A B} (o : outcome (A * B)) : outcome A :=
+  match o with Ok st => Ok (fst st) | Err => Err | Panic => Panic | OutOfFuel => OutOfFuel end.
+
+Lemma walk2_walk1 required main f : forall m have post,
+  walk2 required main f m have = fst_outcome (walk1 (fun x => Some (cache required main x)) f m (have, post)).
+Proof.
+  induction f as [|f IH]; intros m have post; simpl; auto.
+  destruct (mem m have); simpl; auto.
+  assert (FW : forall l have post,
+             fold_walk (walk2 required main f) l have
+             = fst_outcome (fold_walk (walk1 (fun x => Some (cache required main x)) f) l (have, post))).
+  { induction l as [|c l IHl]; intros h p; simpl; auto.
+    rewrite (IH c h p). destruct (walk1 _ f c (h, p)) as [[h' p']| | |]; simpl; auto. }
+  rewrite (FW _ _ post).
+  destruct (fold_walk _ _ _) as [[h' p']| | |]; simpl; auto.
+Qed.
+
+Section RL2.
+  Variable required : node -> option (list node).
+  Variable main : node.
+  Variable N : list node.
+  Hypothesis HN : forall x, In x N -> exists l, required x = Some l /\ incl l N.
+
+  Notation creq := (fun x => Some (cache required main x)).
+
+  Lemma HNc : forall x, In x N -> exists l, creq x = Some l /\ incl l N.
+  Proof.
+    intros x Hx. eexists; split; [reflexivity|]. unfold cache. destruct (node_eqb x main); [intros y []|].
+    destruct (HN x Hx) as (l & E & I). now rewrite E.
+  Qed.
+
+  Lemma cache_dep x y : In y (cache required main x) -> dep required x y.
+  Proof.
+    unfold cache, dep. destruct (node_eqb x main); [intros []|].
+    destruct (required x) as [l|]; [eauto|intros []].
+  Qed.
+
+  Lemma cpath_path a b : path creq a b -> path required a b.
+  Proof.
+    induction 1; [constructor|]. eapply p_step; eauto. destruct H0 as (l & E & I). inversion E; subst.
+    now apply cache_dep.
+  Qed.
+
+  (** the state of the reverse-postorder loop *)
+  Record pm_inv (maxl have mn : list node) : Prop := mkPM {
+    pm_nodup : NoDup have;
+    pm_in : incl have N;
+    pm_closed : forall x, In x have -> incl (cache required main x) have;
+    pm_from : forall x, In x have -> exists c, In c mn /\ path required c x;
+    pm_sel : forall x, In x mn -> max_of_list maxl (fst x) = Some (snd x);
+    pm_mn_have : incl mn have;
+    pm_mn_nodup : NoDup mn }.
+
+  Lemma pick_min_spec fuel maxl : (length N < fuel)%nat ->
+    forall rpost have mn, incl rpost N -> pm_inv maxl have mn ->
+    exists have' mn', pick_min required main fuel maxl rpost have mn = Ok (mn ++ mn') /\
+                      pm_inv maxl have' (mn ++ mn') /\ incl have have' /\ incl mn' rpost /\
+                      (forall x, In x rpost -> max_of_list maxl (fst x) = Some (snd x) -> In x have').
+  Proof.
+    intros Hf. induction rpost as [|m r IH]; intros have mn Hr I; simpl.
+    - exists have, []. rewrite app_nil_r. splits; auto.
+      + apply incl_refl.
+      + apply incl_refl.
+      + intros x [].
+    - assert (Hr' : incl r N) by (intros x H; apply Hr; now right).
+      destruct (optv_eqb (max_of_list maxl (fst m)) (snd m)) eqn:E; simpl.
+      + destruct (mem m have) eqn:Em.
+        * apply mem_In in Em. destruct (IH have mn Hr' I) as (h' & mn' & E1 & I1 & S1 & S2 & C).
+          exists h', mn'. splits; auto.
+          -- intros x H; right; auto.
+          -- intros x [H|H] Hs; [subst; auto | auto].
+        * apply mem_false in Em.
+          assert (Hf' : (length N < fuel + length have)%nat) by lia.
+          destruct (walk1_spec creq N HNc fuel m have [] (pm_nodup _ _ _ I) (pm_in _ _ _ I) (Hr m (or_introl eq_refl)) Hf')
+            as (v1 & n1 & E1 & C1 & ND1 & IN1 & S1 & NEW1 & CL1 & P1).
+          rewrite (walk2_walk1 required main fuel m have []), E1. simpl.
+          assert (Esel : max_of_list maxl (fst m) = Some (snd m)).
+          { unfold optv_eqb in E. destruct (max_of_list maxl (fst m)) as [w|]; [|discriminate].
+            destruct (version_eqb_spec w (snd m)); congruence. }
+          assert (I' : pm_inv maxl v1 (mn ++ [m])).
+          { split; auto.
+            - intros x Hx. destruct (in_dec node_dec x have) as [Hh|Hh].
+              + eapply incl_tran; [apply (pm_closed _ _ _ I); auto | auto].
+              + eapply CL1; [apply NEW1; eauto | reflexivity].
+            - intros x Hx. destruct (in_dec node_dec x have) as [Hh|Hh].
+              + destruct (pm_from _ _ _ I x Hh) as (c & Hc1 & Hc2). exists c. rewrite in_app_iff. auto.
+              + destruct (P1 x (proj2 (NEW1 x) (conj Hx Hh))) as (c & [Hc|[]] & Hp). subst c.
+                exists m. rewrite in_app_iff. split; [right; now left|]. now apply cpath_path.
+            - intros x Hx. rewrite in_app_iff in Hx. destruct Hx as [Hx|[Hx|[]]]; [apply (pm_sel _ _ _ I); auto | subst; auto].
+            - intros x Hx. rewrite in_app_iff in Hx. destruct Hx as [Hx|[Hx|[]]]; [apply S1, (pm_mn_have _ _ _ I); auto | subst; auto].
+            - apply NoDup_snoc; [apply (pm_mn_nodup _ _ _ I)|]. intros X. apply Em. now apply (pm_mn_have _ _ _ I). }
+          destruct (IH v1 (mn ++ [m]) Hr' I') as (h' & mn' & E2 & I2 & S2 & S3 & C).
+          exists h', (m :: mn'). rewrite E2. rewrite <- app_assoc. simpl. splits; auto.
+          -- replace (mn ++ m :: mn') with ((mn ++ [m]) ++ mn') by (rewrite <- app_assoc; reflexivity). auto.
+          -- eapply incl_tran; eauto.
+          -- intros x [H|H]; [now left | right; auto].
+          -- intros x [H|H] Hs; [subst; auto | auto].
+      + destruct (IH have mn Hr' I) as (h' & mn' & E1 & I1 & S1 & S2 & C).
+        exists h', mn'. splits; auto.
+        * intros x H; right; auto.
+        * intros x [H|H] Hs; [|auto]. subst x. rewrite Hs in E. simpl in E.
+          destruct (version_eqb_spec (snd m) (snd m)); [discriminate|congruence].
+  Qed.
+End RL2.
+
+Lemma find_path_In p l v : find_path p l = Some v -> In (p, v) l.
+Proof.
+  induction l as [|[q w] l IH]; simpl; [discriminate|].
+  destruct (str_eqb_spec q p); [intros H; inversion H; subst; auto | auto].
+Qed.
+
+Lemma In_find_path p l v : NoDup (map fst l) -> In (p, v) l -> find_path p l = Some v.
+Proof.
+  induction l as [|[q w] l IH]; simpl; [tauto|]. intros ND [H|H].
+  - inversion H; subst. now rewrite str_eqb_refl.
+  - inversion ND; subst. destruct (str_eqb_spec q p); auto. subst. exfalso. apply H2.
+    now apply (in_map fst _ (p, v)).
+Qed.
+
+Lemma max_of_list_In l p v : NoDup (map fst l) -> (max_of_list l p = Some v <-> In (p, v) l).
+Proof.
+  intros ND. unfold max_of_list. split.
+  - intros H. apply find_path_In in H. now apply (proj2 (in_rev l (p, v))).
+  - intros H. apply In_find_path; [|now apply (proj1 (in_rev l (p, v)))].
+    rewrite map_rev. apply NoDup_rev. auto.
+Qed.
+
+Lemma nodup_keys_sub (l bl : list node) : NoDup l -> incl l bl -> NoDup (map fst bl) -> NoDup (map fst l).
+Proof.
+  induction l as [|[p v] l IH]; simpl; intros ND I K; [constructor|]. inversion ND; subst.
+  constructor; [|apply IH; auto; intros x Hx; apply I; now right].
+  intros Hin. apply in_map_iff in Hin. destruct Hin as ([q w] & E & Hx). simpl in E. subst q.
+  assert (v = w).
+  { assert (A : In (p, v) bl) by (apply I; now left). assert (B : In (p, w) bl) by (apply I; now right).
+    apply (In_find_path _ _ _ K) in A. apply (In_find_path _ _ _ K) in B. congruence. }
+  subst. auto.
+Qed.
+
+Section RL3.
+  Variable required : node -> option (list node).
+  Variable N : list node.
+  Hypothesis HN : forall x, In x N -> exists l, required x = Some l /\ incl l N.
+
+  Theorem req_list_spec fuel bl :
+    (length N < fuel)%nat -> In target N -> incl bl N -> NoDup (map fst bl) ->
+    exists mn, req_list required target fuel bl = Ok mn /\ StronglySorted path_lt mn /\
+               incl mn bl /\ ~ In target mn /\
+               forall m, In m bl -> m <> target -> exists c, In c mn /\ path required c m.
+  Proof.
+    intros Hf Ht Hbl ND. unfold req_list.
+    assert (ND0 : NoDup [target]) by (repeat constructor; simpl; tauto).
+    assert (IN0 : incl [target] N) by (intros x [H|[]]; subst; auto).
+    assert (Hf0 : (length N < fuel + length [target])%nat) by (simpl; lia).
+    destruct (fold_walk1_spec required N HN fuel bl [target] [] ND0 IN0 Hbl Hf0)
+      as (vis & post & E1 & C1 & ND1 & IN1 & S1 & NEW1 & CL1 & P1).
+    rewrite E1. simpl.
+    assert (Hpost : incl (rev post) N).
+    { intros x Hx. apply (proj2 (in_rev post x)) in Hx. apply IN1. now apply NEW1. }
+    assert (I0 : pm_inv required target N bl [] []).
+    { split; try easy; constructor. }
+    destruct (pick_min_spec required target N HN fuel bl Hf (rev post) [] [] Hpost I0)
+      as (have & mn & E2 & I2 & _ & S2 & C2).
+    simpl in E2, I2. rewrite E2. simpl. exists (sort_nodes mn).
+    assert (Hsel : forall x, In x mn -> In x bl).
+    { intros [p v] Hx. apply (max_of_list_In bl p v ND). apply (pm_sel _ _ _ _ _ _ I2 _ Hx). }
+    splits; auto.
+    - apply sort_nodes_sorted. eapply nodup_keys_sub; [apply (pm_mn_nodup _ _ _ _ _ _ I2) | exact Hsel | exact ND].
+    - intros x Hx. apply (proj1 (sort_nodes_In mn x)) in Hx. auto.
+    - intros Hx. apply (proj1 (sort_nodes_In mn target)) in Hx. apply S2 in Hx. apply (proj2 (in_rev post target)) in Hx. apply NEW1 in Hx.
+      destruct Hx as [_ Hx]. apply Hx. now left.
+    - intros [p v] Hm Hne.
+      assert (Hp : In (p, v) (rev post)).
+      { apply (proj1 (in_rev post (p, v))). apply NEW1. split; [apply C1; auto|]. intros [X|[]]. congruence. }
+      assert (Hh : In (p, v) have) by (apply C2; auto; now apply (max_of_list_In bl p v ND)).
+      destruct (pm_from _ _ _ _ _ _ I2 _ Hh) as (c & Hc1 & Hc2). exists c. split; auto. now apply (proj2 (sort_nodes_In mn c)).
+  Qed.
+
+  (** nobody requires the root project, and no version in the closed set is "none" *)
+  Hypothesis no_main_dep : forall x l, In x N -> required x = Some l -> ~ In target l.
+  Hypothesis no_none_N : forall x, In x N -> snd x <> VNone.
+
+  (** Algorithm R is sound: a build list that is the MVS solution of a set [R] containing the closed set [N]
+      is the MVS solution of the graph rooted at its minimal requirement list *)
+  Theorem req_list_sound (R : node -> Prop) fuel bl :
+    (length N < fuel)%nat -> In target N -> incl bl N -> (forall x, In x N -> R x) ->
+    mvs_solution R bl ->
+    exists mn, req_list required target fuel bl = Ok mn /\
+               StronglySorted path_lt mn /\ incl mn bl /\ ~ In target mn /\
+               forall required' : node -> option (list node),
+                 required' target = Some mn -> (forall x, In x N -> x <> target -> required' x = required x) ->
+                 mvs_solution (greach required' None target) bl /\
+                 (forall m, greach required' None target m -> In m N /\ bad required' None m = false).
+  Proof.
+    intros Hf Ht Hbl HR SOL.
+    assert (ND : NoDup (map fst bl)) by (apply sorted_nodup_keys, SOL).
+    destruct (req_list_spec fuel bl Hf Ht Hbl ND) as (mn & E & S & I & NT & C).
+    exists mn. splits; auto. intros required' Et Eo.
+    set (R' := greach required' None target).
+    assert (RN : forall n, R' n -> In n N).
+    { induction 1; auto. apply succs_plain in H0. destruct H0 as (_ & l & El & Hl).
+      destruct (node_dec m target) as [X|X].
+      - subst m. rewrite Et in El. inversion El; subst. apply Hbl, I, Hl.
+      - rewrite (Eo m IHgreach X) in El. destruct (HN m IHgreach) as (l' & El' & Il'). rewrite El' in El.
+        inversion El; subst. auto. }
+    assert (PATH : forall c m, In c N -> c <> target -> R' c -> path required c m -> R' m /\ In m N /\ m <> target).
+    { intros c m Hc Hne Hr Hp. induction Hp; [auto|]. destruct IHHp as (A & B & D).
+      destruct H as (l & El & Hl). splits.
+      - eapply gr_step; [exact A|]. apply succs_plain. split; [now apply no_none_N|].
+        exists l. split; auto. now rewrite (Eo k B D).
+      - destruct (HN k B) as (l' & El' & Il'). rewrite El' in El. inversion El; subst. auto.
+      - intros X. subst n. eapply no_main_dep; eauto. }
+    split.
+    - destruct SOL as (SS & M & CV). split; [auto|split].
+      + intros p v Hin. split; [|apply (M p v Hin)].
+        destruct (node_dec (p, v) target) as [X|X]; [rewrite X; constructor|].
+        destruct (C _ Hin X) as (c & Hc1 & Hc2).
+        assert (Rc : R' c).
+        { eapply gr_step; [constructor|]. apply succs_plain. split; [discriminate|]. exists mn. auto. }
+        assert (Hcne : c <> target) by (intros Y; apply NT; rewrite <- Y; exact Hc1).
+        destruct (PATH c (p, v) (Hbl c (I c Hc1)) Hcne Rc Hc2) as (A & _). exact A.
+      + intros p v Hr Hv. apply CV; auto.
+    - intros m Hm. split; [auto|]. destruct (bad required' None m) eqn:B; auto. exfalso.
+      apply bad_plain in B. destruct B as [_ B].
+      destruct (node_dec m target) as [X|X]; [subst; congruence|].
+      rewrite (Eo m (RN m Hm) X) in B. destruct (HN m (RN m Hm)) as (l' & El' & _). congruence.
+  Qed.
+End RL3.
